@@ -87,6 +87,8 @@ def parseOp (ws : List String) : Option Op :=
   | ["deposit", c, g, u, n, e] => do pure (.deposit (← c.toNat?) (← g.toNat?) (← u.toNat?) (← n.toNat?) (e == "1"))
   | ["send", c, g, u, n, f] => do pure (.send (← c.toNat?) (← g.toNat?) (← u.toNat?) (← n.toNat?) (← f.toNat?))
   | ["xsend", c, g, u, n, f] => do pure (.xsend (← c.toNat?) (← g.toNat?) (← u.toNat?) (← n.toNat?) (← f.toNat?))
+  | ["vsend", c, g, u, n, f] => do pure (.vsend (← c.toNat?) (← g.toNat?) (← u.toNat?) (← n.toNat?) (← f.toNat?))
+  | ["xincfee", c, id, u, g, n] => do pure (.xincfee (← c.toNat?) (← id.toNat?) (← u.toNat?) (← g.toNat?) (← n.toNat?))
   | ["cancel", c, id, u] => do pure (.cancel (← c.toNat?) (← id.toNat?) (← u.toNat?))
   | ["xcancel", c, id, u] => do pure (.cancel (← c.toNat?) (← id.toNat?) (← u.toNat?))
   | ["incfee", c, id, u, g, n] => do pure (.incfee (← c.toNat?) (← id.toNat?) (← u.toNat?) (← g.toNat?) (← n.toNat?))
